@@ -45,7 +45,7 @@ def run(ctx):
         "the --file-name filter, --show-fields and directory traversal are not exercised (file-level update, with and without --include/--exclude)",
     ]
     ctx.regen()
-    ctx.prove(["TsVerif.C20.Props"], "TsVerif/C20/Audit.lean")
+    ctx.prove(["TsVerif.C20.Props", "TsVerif.C20.Idempotent"], "TsVerif/C20/Audit.lean")
     driver = ctx.build_driver("tsv-c20")
     explorer = ctx.cargo_bin("c20", features="cli")
     if not (explorer and os.path.exists(driver)):
@@ -89,14 +89,22 @@ def run(ctx):
     compared = 0
     judge_bad = 0
     dist = {"tests": {}, "suffixed": 0, "crlf": 0, "with_attrs": 0, "with_delimlike_inputs": 0, "with_wrong_expectations": 0,
-            "written": 0, "not_written": 0, "update_filter": {"n": 0, "i": 0, "x": 0}, "files_with_carried_over_tests": 0, "wellformed_expectations": 0, "bytes_total": 0, "clauses_failed": {}}
+            "written": 0, "not_written": 0, "update_filter": {"n": 0, "i": 0, "x": 0, "b": 0}, "files_with_carried_over_tests": 0, "wellformed_expectations": 0, "bytes_total": 0, "clauses_failed": {}}
     corr_viol = []
     sx_total = sx_class = 0
-    acts_total = acts_ok = ent_total = ent_canon = 0
+    strip_total = strip_ok = strip_real_ok = 0
+    acts_total = acts_ok = ent_total = ent_canon = ent_shape = ent_expect = 0
     for line in out.split("\n"):
         if not line.strip():
             continue
         cid, kv = parse_kv_line(line)
+        if cid == "strip":
+            strip_total += 1
+            strip_ok += kv.get("strip") == "ok"
+            if kv.get("strip") != "ok" and len(corr_viol) < 10:
+                corr_viol.append(("corr", "TsVerif.C20.stripSexpFields and strip_sexp_fields disagree on a synthetic rendering",
+                                  {"input_hex": kv.get("strip", "")[5:]}, {"corr": "strip"}, False))
+            continue
         if "judge" not in kv:
             continue
         evals += 1
@@ -116,8 +124,11 @@ def run(ctx):
         sx_class += int(kv.get("sxclass", "0"))
         acts_total += int(kv.get("acts", "0"))
         acts_ok += int(kv.get("actok", "0"))
+        strip_real_ok += int(kv.get("stripok", "0"))
         ent_total += n0
         ent_canon += int(kv.get("canon", "0"))
+        ent_shape += int(kv.get("shape", "0"))
+        ent_expect += int(kv.get("expectok", "0"))
         if kv.get("acts") != kv.get("actok"):
             corr_viol.append(("corr", "an answer of the real parser violates ActOK (hypothesis of update_idempotent_partial: plain rendering "
                               "without fields, equal renderings when there are no fields, error-free renderings in the format class)",
@@ -178,10 +189,18 @@ def run(ctx):
     ctx.oblige("corr:parseFile=parse_tests", corr["parse0"] + corr["parse1"] == 0, "%d disagreements" % (corr["parse0"] + corr["parse1"]))
     ctx.oblige("tie:printed-sexps-in-format_normalize-class", sx_total == sx_class,
                "%d of %d S-expressions printed for error-free trees are balanced token sequences" % (sx_class, sx_total))
+    ctx.oblige("corr:stripSexpFields=strip_sexp_fields", strip_total == strip_ok and strip_real_ok == acts_total,
+               "synthetic %d/%d, real renderings %d/%d" % (strip_ok, strip_total, strip_real_ok, acts_total))
+    ctx.coverage["strip_sexp_fields"] = {"synthetic": strip_total, "synthetic_equal": strip_ok,
+                                         "real_renderings": acts_total, "real_equal": strip_real_ok}
     ctx.oblige("tie:parser-answers-satisfy-ActOK", acts_total == acts_ok, "%d of %d" % (acts_ok, acts_total))
     ctx.coverage["idempotence_hypotheses_measured"] = {
         "parser_answers": acts_total, "satisfying_ActOK": acts_ok,
-        "real_entries": ent_total, "with_canonical_flags (attrs = flagsOf name attrsStr)": ent_canon}
+        "real_entries": ent_total, "with_canonical_flags (attrs = flagsOf name attrsStr)": ent_canon,
+        "with_EntryOKG_shape (languages, has_fields, trimmed CST text)": ent_shape,
+        "with_expectation_empty_or_balanced_or_cst": ent_expect}
+    ctx.oblige("tie:real-entries-have-EntryOKG-shape-and-canonical-flags", ent_shape == ent_total and ent_canon == ent_total,
+               "shape %d, canonical %d of %d" % (ent_shape, ent_canon, ent_total))
     ctx.coverage["format_class"] = {"printed_error_free_sexps": sx_total, "in_theorem_class": sx_class}
     ctx.oblige("corr:directory-update-second-file", corr["bupd1"] + corr["bupd2"] == 0,
                "%d disagreements" % (corr["bupd1"] + corr["bupd2"]))
